@@ -327,6 +327,14 @@ void metric_case(vh::Case& c) {
     Persistence_landscape_on_grid Av; Av.compute_average({&L[0], &L[1], &L[2]});
     Fn fav; for (int j = 0; j < 3; ++j) fav.terms.push_back(lsdef::Term{1.0 / 3, &t.d[j].D});
     L[2] = Av; f[2] = fav; cls += ",with_average";
+  } else if (r.chance(1, 3)) {
+    // an element of the vector space that is not a landscape of a diagram: its levels are not decreasing in k and it
+    // can be negative (differences are part of the property: "sums, differences ... distances equal the integrals")
+    double a = 1 + (double)r.below(3);
+    c.log("L2 := " + vh::str(a) + "*L0 - L1"); c.count("op.difference_as_operand");
+    Persistence_landscape_on_grid Df = a * L[0] - L[1];
+    Fn fd = lsdef::minus(lsdef::scaled(f[0], a), f[1]);
+    L[2] = Df; f[2] = fd; cls += ",with_difference";
   }
   bool cross[3][3], flat[3][3], flat_self[3], any_flat = false;
   for (int i = 0; i < 3; ++i) for (int j = 0; j < 3; ++j) {
@@ -369,6 +377,9 @@ void metric_case(vh::Case& c) {
       c.log("compute_norm_of_landscape(p=" + std::string(pn[pi]) + ")");
       for (int i = 0; i < 3 && sec_ok; ++i) {
         double want = sup ? lsdef::norm_sup(f[i]) : lsdef::norm_p(f[i], (int)p);
+        // a norm is the distance to the zero landscape: same documented inaccuracy when a level changes sign strictly
+        // between two grid points
+        if (!sup && crosses_between_grid_points(f[i], Fn(), g)) { c.count("skip.norm_level_crosses_zero_between_grid_points"); continue; }
         sec_ok = check_scalar(c, L[i].compute_norm_of_landscape(p), want, kIntTol, "grid.norm", sp + (p == 2.0 && flat_self[i] ? ",flat_cell" : ""), "norm of L" + vh::str(i));
       }
     }
